@@ -11,8 +11,15 @@ Inductive case :=
     (* tree_class.build_random_tree(structure_def) with random/fabulist reading s;
        rk = a rank of the node types, proposed by the harness *)
 | CCyclic (d : sdef) (fuel : Z) (s : stream)
-| CCtor (r : rnd).
+| CCtor (r : rnd)
     (* constructing the randomizer: accepted, or AssertionError *)
+| CCtorNoFab (r : rnd)
+    (* the same with fabulist not installed: Text-/BlindTextRandomizer raise RuntimeError
+       (after the probability assert of the base class) *)
+| CSeq (l : list case).
+    (* a session: several builds from ONE definition object / the same randomizer objects,
+       re-configured in between.  The model is a pure function of the configuration at call
+       time: each step is evaluated on its own *)
     (* D39: cyclic relation graph; the model's tree is as high as the fuel allows *)
 
 Definition sx_q (q : Q) : sx := let r := Qred q in L [A 3; A (Qnum r); A (Zpos (Qden r))].
@@ -36,7 +43,7 @@ Definition sx_value (v : value) : sx :=
 Fixpoint sx_gt (typed : bool) (t : gt) : sx :=
   match t with
   | G ty fac attrs ch =>
-      L [ sx_opt sx_text (if typed then Some ty else None); A fac;
+      L [ sx_opt sx_text (kind_of typed t); A fac;
           L (map (fun kv => L [sx_text (fst kv); sx_value (snd kv)]) attrs);
           L (map (sx_gt typed) ch) ]
   end.
@@ -44,15 +51,22 @@ Fixpoint sx_gt (typed : bool) (t : gt) : sx :=
 (* the hypotheses of the C20 theorems, decided: the case is inside their domain *)
 Definition in_domain (d : sdef) (fuel : Z) (rk : list (text * Z)) : bool :=
   let rkf := rk_of (map (fun p => (fst p, Z.to_nat (snd p))) rk) in
-  def_wf2b d && rank_okb d rkf && Nat.ltb (rkf K_root) (Z.to_nat fuel) && mem K_root (d_rels d).
+  def_wf2b d && counts_wfb d && rank_okb d rkf && Nat.ltb (rkf K_root) (Z.to_nat fuel) && mem K_root (d_rels d).
 
-Definition run20 (c : case) : sx :=
+Fixpoint run20 (c : case) : sx :=
   match c with
+  | CSeq l => L (map run20 l)
   | CCtor r => L [A (-3); sx_bool (ctor_ok r)]
+  | CCtorNoFab r =>
+      let pok := Qle_bool 0 (prob_of r) && Qle_bool (prob_of r) 1 in
+      L [A (-3); A (if negb pok then 0                                   (* AssertionError *)
+                    else match r with RText _ _ => 2                     (* RuntimeError *)
+                         | _ => if ctor_ok r then 1 else 0 end)]
   | CBuild typed d fuel rk s =>
       if negb (def_accepted d) then L [A (-2); A 6] else       (* AssertionError *)
       match build_random_tree d typed (Z.to_nat fuel) s with
       | (cls, name, f) =>
+          if existsb raised f then L [A (-2); A 7] else           (* range(count): TypeError *)
           L [sx_bool cls; sx_opt sx_text name; L (map (sx_gt typed) f); sx_bool (in_domain d fuel rk);
              sx_bool forward_attrs]
       end
